@@ -16,10 +16,12 @@
     2 for node 0, while the least fixpoint at the new inputs — and the model itself on a fresh
     database — give 6 (by kernel evaluation).  The full property "answers do not depend on
     the history" is FALSE of this model exactly as it is false of salsa.
-  * `c12rev_closed_not_least_witness`: a second, different history dependence (3 nodes, 3
-    operations; real salsa answers the same): after a write closes a cycle through a final memo,
-    that memo is validated against a provisional dependency and the cycle converges to a
-    NON-LEAST fixpoint (95 instead of 0) — and the table passes the closedness certificate.
+  * `c12rev_stale_final_memo_repaired_witness`: the history of a second defect, found with this
+    model and repaired in salsa (`fix: treat a provisional memo as changed in
+    maybe_changed_after`, mirrored in `mcaStep`): after a write closes a cycle through a final
+    memo, that memo was validated against a provisional dependency (a plain function inside the
+    new cycle) and the cycle converged to a NON-LEAST fixpoint (95 instead of 0) whose table
+    passed the closedness certificate; the repaired model answers the least fixpoint 0.
   * `c12rev_flatten_lag`: the mechanism, for all states: flattening an edge to a recovering
     query whose memo is still provisional copies the edges stored in that memo (its previous
     completion; nothing for the fixpoint-initial memo), not what it has read since.
@@ -47,9 +49,9 @@
     values) is not proved; it is a hypothesis checked on the run (`closedOn`).  The two models
     agree on all generated cases (differential runs), and they cannot be related step by step:
     salsa iterates until (value, durability, changed_at) converge and reuses participants.
-  * any cross-revision LOWER bound: false in general (the witness above).  A sufficient side
-    condition on the run ("no finalised memo with a non-empty cycle-head list is validated
-    without re-execution") holds on all generated counterexamples but is not proved.
+  * any cross-revision LOWER bound: false in general (the kf2 witness above; kf2 is a recorded,
+    unrepaired finding — a validated candidate repair, "also verify the dependency lists of a
+    finalised participant's cycle heads", exists but is not applied).
 -/
 import SalsaVerif.Proofs.CycleRevLe5
 import SalsaVerif.Proofs.CycleRevMech
@@ -84,21 +86,22 @@ theorem c12rev_history_dependence_recorded :
   rw [← SalsaVerif.Proofs.Cycle.lfpL_getD]
   decide
 
-/-- **a closed table need not be the least solution after a write.**  `q0 = if i0 odd then
-    q1 ∪ q2 else i1` (fix), `q1 = q0` (plain), `q2 = q1` (fix); inputs 2, 95.  get 2 answers 95;
-    the write i0 := 3 closes the cycle `q0 → q1 → q0`, `q0 → q2 → q1`; get 0 now answers 95, the
-    least fixpoint is 0 (and 0 is what the model answers on a fresh database).  The final memo
-    of `q2` is VALIDATED: its only edge is `q1`, whose memo of this iteration is provisional,
+/-- **stale final memo, repaired.**  `q0 = if i0 odd then q1 ∪ q2 else i1` (fix), `q1 = q0` (plain),
+    `q2 = q1` (fix); inputs 2, 95.  get 2 answers 95; the write i0 := 3 closes the cycles
+    `q0 → q1 → q0`, `q0 → q2 → q1`; get 0 answers the least fixpoint 0, which is also what the
+    model answers on a fresh database, and the table passes the certificate `certB`.
+    Before `fix: treat a provisional memo as changed in maybe_changed_after` the final memo of
+    `q2` was VALIDATED: its only edge is `q1`, whose memo of this iteration is provisional,
     accepted by `validate_same_iteration`, and carries the `changed_at` of the fixpoint-initial
-    memo of `q0`, so `maybe_changed_after` answers "unchanged".  The table left behind passes the
-    certificate `certB`: closedness gives `lfp ≤ v` only; it cannot give `v ≤ lfp` across
-    revisions.  (Real salsa answers 95 as well: a defect distinct from kf2, found through the
-    certificate statistics of the differential runs.) -/
-theorem c12rev_closed_not_least_witness :
-    outputs kf3P (St.init 3 [(2, 0), (95, 0)]) kf3Ops = [.value 95, .value 95] ∧
-    Cycle.lfp (toCycle kf3P) (envOfVals [3, 95]) 0 = 0 ∧
-    outputs kf3P (St.init 3 [(3, 0), (95, 0)]) [.get 0] = [.value 0] ∧
-    certB kf3P (run kf3P (St.init 3 [(2, 0), (95, 0)]) kf3Ops) 0 95 = true := by
+    memo of `q0`, so `maybe_changed_after` answered "unchanged"; the cycle converged to the
+    non-least fixpoint 95 — with a table that is closed: closedness gives `lfp ≤ v` only, it
+    cannot give `v ≤ lfp` across revisions.  (work/cyclerev/stale-final-memo-validated-through-
+    provisional-dep.ops, corpus/CYCLEREV/stale-final-memo-min.ops.) -/
+theorem c12rev_stale_final_memo_repaired_witness :
+    outputs staleFinalP (St.init 3 [(2, 0), (95, 0)]) staleFinalOps = [.value 95, .value 0] ∧
+    Cycle.lfp (toCycle staleFinalP) (envOfVals [3, 95]) 0 = 0 ∧
+    outputs staleFinalP (St.init 3 [(3, 0), (95, 0)]) [.get 0] = [.value 0] ∧
+    certB staleFinalP (run staleFinalP (St.init 3 [(2, 0), (95, 0)]) staleFinalOps) 0 0 = true := by
   refine ⟨by decide, ?_, by decide, by decide⟩
   rw [← SalsaVerif.Proofs.Cycle.lfpL_getD]
   decide
